@@ -2,7 +2,7 @@
 # usage: tools/benign.sh [patch ...]  -- negative control: property-preserving changes of /repo
 # (benign/*.diff) applied in a scratch worktree; every registered check's quick tier must stay quiet.
 cd /verif
-patches=${@:-benign/*.diff}
+patches=${@:-benign/b*.diff}
 ids=$(/venv/bin/python -c "import json;print(' '.join(c['property_id'] for c in json.load(open('/verif/MANIFEST.json'))['checks']))")
 for p in $patches; do
   d=/tmp/benign-$$
